@@ -8,10 +8,11 @@ import core
 import engines.numeric as en
 
 PROP = 'C06'
-LEAN_TARGETS = ['MM.Props.C05C06', 'MM.Driver.Wire', 'MM.Model.Numeric']
+LEAN_TARGETS = ['MM.Props.C05C06', 'MM.Driver.Wire', 'MM.Model.Numeric', 'MM.Props.MemoTie']
 THEOREMS = ['MM.Numeric.' + n for n in (
     'C06_closed_form', 'C06_posterior_scale', 'C06_posterior_loc', 'C06_posterior_df', 'C06_design_side',
     'C06_summary_order', 'C06_summary_order_fails', 'C06_summary_probability', 'ols_resid_sum', 'ols_rss')]
+THEOREMS = list(THEOREMS) + ['MM.Memo.tie_memoised']
 TRUSTED_BASE = [
     'Lean 4.33.0 kernel + Mathlib (real analysis); axioms propext, Classical.choice, Quot.sound (audited per theorem)',
     'generic numeric model MM/Model/Numeric.lean: theorems at ℝ, correspondence at Float (IEEE double, Lean Float = C double) '
